@@ -59,7 +59,7 @@ func (w *faultyWriter) Write(p []byte) (int, error) {
 		w.log = append(w.log, wlog{len(p), 0, true})
 		return 0, w.err()
 	}
-	if w.failed && (w.mode == "transientErr" || w.mode == "transientShort") {
+	if w.failed && (w.mode == "transientErr" || w.mode == "transientShort" || w.mode == "transientFull") {
 		// the destination has recovered: one call failed, everything afterwards is taken
 		w.acc.Write(p)
 		w.log = append(w.log, wlog{len(p), len(p), false})
@@ -76,6 +76,12 @@ func (w *faultyWriter) Write(p []byte) (int, error) {
 	}
 	w.failed = true
 	n := 0
+	if w.mode == "fullErr" || w.mode == "transientFull" {
+		// the offending call is taken completely and reported as failed all the same (n == len(p) with an error)
+		w.acc.Write(p)
+		w.log = append(w.log, wlog{len(p), len(p), true})
+		return len(p), w.err()
+	}
 	if w.mode == "shortWrite" || w.mode == "transientShort" {
 		n = w.k - w.acc.Len()
 		w.acc.Write(p[:n])
@@ -259,7 +265,7 @@ func wfRun(args []string) error {
 			if k <= 12 || k >= len(O)-12 {
 				errIdx = []int{0, 1, 2, 3, 4}
 			}
-			for _, mode := range []string{"errAtCall", "shortWrite", "transientErr", "transientShort", "budget"} {
+			for _, mode := range []string{"errAtCall", "shortWrite", "transientErr", "transientShort", "budget", "fullErr", "transientFull"} {
 				for _, destE := range []string{"norf", "rf"} {
 					for _, ei := range errIdx {
 						dest := destE
